@@ -759,6 +759,7 @@ func runC20(c *Ctx) {
 	}
 	c.Explain = "Per hooks.On* call site (13): the returned closure is stored in a holder field, deferred, or called (never dropped). Local holders: every return after the call passes a defer/call of the closure. path.onOfflineHook / onUnDemandHook / onUnavailableHook and the server-side fields: frozen who-may-store / who-may-call tables plus the guard literal each site must be dominated by. Rollback after setAvailable shared with C16. closed_when_open (prop_r4_c20.go): per (closing function, holder) of the table a walk from the entry (path.run: from after the runInner call) to every return with the call of the held closure as barrier and the negated table literal as the only excusing edge. Not decided: alternation over arbitrary lifecycles (only that each transition function preserves 'hook open ⇔ resource held')."
 	c.Assume = []string{"gortsplib: a session is in state Play only after onPlay ran in state PrePlay", "static sources call SetNotReady only after a successful SetReady"}
+	c20r4ClosedSessionsForgotten(c, p) // prop_r4_c20_hls.go
 
 	// ---- every hooks.On* result is used; classify holders
 	nSites := 0
